@@ -316,6 +316,20 @@ def r03d(R):
             activated is not None,
             'enter_routine no longer makes the filled parameters the '
             'routine\'s variables')
+    if activated is not None:
+        cfg = A.cfg(enter)
+        stores = [n for n in cfg.nodes if n.kind == 'stmt'
+                  and isinstance(n.ast, ast.Assign)
+                  and norm(n.ast.value) == 'self._top.' + written
+                  and norm(n.ast.targets[0]) == 'self._top.' + activated]
+        p = cfg.find_path([cfg.entry], lambda n: n is cfg.exit, avoid=stores)
+        R.check(enter, 'the switch to the callee\'s own scope is unconditional',
+                p is None,
+                'enter_routine can return without replacing the variables '
+                'inherited from the caller by the routine\'s own (on that path '
+                'the callee reads and writes the caller\'s locals: its locals '
+                'leak, recursion shares them, a caller\'s parameter hides a '
+                'global inside the callee)', path=path_text(p) if p else None)
     gv = sf.methods['get_variable']
     chain = []
     for node in walk_own(gv.node):
